@@ -2,7 +2,7 @@
 CHECK = {
     "pkg": ".", "files": ["root/c37_test.go"], "run": "^TestC37",
     "quick": {"scale": 1, "shards": 1, "timeout": 600},
-    "thorough": {"scale": 8, "shards": 8, "timeout": 1500},
+    "thorough": {"scale": 6, "shards": 6, "timeout": 1500},
     "rule": "rapid state machine over one RemoteList: 1..24 operations (LearnRemote v4/v6/mapped, reported v4/v6 lists of "
             "0..14 entries with a per-call filter, static prepends, relay lists, BlockRemote incl. relayed senders, "
             "ResetBlockedRemotes / RefreshFromHandshake, ResetForOwner, hostname results installed/changed/cleared) over "
